@@ -16,6 +16,11 @@ TNext ==
     \/ Is("submit") /\ Submit(Rec.t) /\ Adv
     \/ Is("run") /\ Run(Rec.t, Rec.w) /\ Adv
     \/ (\E a \in Actor : Lin(a) \/ ResumeEarly(a)) /\ UNCHANGED l
+    \* a stealing pool of which only a part was resumed: the submitter waits ("await") for work that was
+    \* parked on sleeping workers; "awaited" = everything submitted so far has run on the resumed part
+    \* (a wait that never ends is a "quiescent" record, which no action accepts)
+    \/ Is("await") /\ (\E w \in Worker : ws[w] = "running") /\ UNCHANGED vars /\ Adv
+    \/ Is("awaited") /\ NoneOutstanding /\ UNCHANGED vars /\ Adv
     \* end of history: everything was resumed and every submitted task ran exactly once
     \/ Is("reset") /\ (\A a \in Actor : op[a].st = "idle") /\ AllRanOnce /\ UNCHANGED vars /\ Adv
     \* ("quiescent" has no action: a call that never returns or a task that never runs although all
